@@ -1,6 +1,7 @@
 package checks
 
 import (
+	"bufio"
 	"bytes"
 	"fmt"
 
@@ -9,6 +10,7 @@ import (
 	"verif/mc/bind"
 	"verif/mc/core"
 	"verif/mc/env"
+	"verif/mc/gen"
 	"verif/mc/spec"
 )
 
@@ -26,7 +28,8 @@ func init() {
 		Rule: "odometer over the raw spaces: (a) every value 0..2^28-1 encoded by the library's encoder (hook), compared byte for byte with an independent reference encoding, " +
 			"then decoded by the in-memory decoder (as buffer.get drives it) and by the streaming decoder with tails {none,00,ff,80}: value, bytes advanced and bytes drawn from a counting reader must be exact; " +
 			"(b) every byte string up to the tier's length given as the whole data / whole stream: both decoders must agree with a 12-line reference decoder on value or rejection; " +
-			"(c) public-API cross-check: Subscribe.SetSubscriptionID round trips and remaining-length bytes of written frames at the varint boundaries. " +
+			"(c) the same codec at its public use sites: Subscribe.SetSubscriptionID round trips for every value whose four 7-bit groups come from {0,1,2,3,3f,40,41,7e,7f} (6560 values); subscription identifiers carried by a PUBLISH (packed 128 per packet, written through the API, read by the specification decoder for value and minimal form, read back by ReadPacket) for every value below 2^24 (thorough: all 2^28); remaining length of a PUBLISH written and read back for every value 4..20000 (thorough ..70000 and 2^21+-300); " +
+			"(d) the streaming decoder fed through buffering readers (bufio 16/4096/pre-filled, own type with Peek/Discard, LimitedReader) whose source hands over 1..4 bytes per Read, so that the buffer ends inside the integer: the group values and every byte string of length <= 2 (thorough 3) with each tail; " +
 			"distinct_nontrivial counts distinct (value) cases with a multi-byte encoding plus distinct byte strings that contain at least one continuation byte.",
 		Assumptions: []string{
 			"the verif hook wrappers call the same unexported encoder/decoders the packet codecs use (verif_hooks.go, 10 lines, reviewed)",
@@ -317,6 +320,79 @@ func runC15(x *core.Ctx) {
 	if x.Shard == 0 {
 		c15API(x)
 	}
+	// every identifier whose 7-bit groups come from a 9-letter alphabet:
+	// SUBSCRIBE (single identifier) and the streaming decoder behind
+	// buffering readers
+	for _, v := range gen.VarintGroupValues() {
+		if !x.Mine() {
+			continue
+		}
+		vv := v
+		x.Eval("api.subid.groups")
+		x.Distinct(core.Hash([]byte("subid"), refEncode(v)))
+		if f := c15APIcase(v); f != nil {
+			x.Report(f, func() core.Case { return core.Case{Harness: "c15.api.subid", Params: map[string]any{"value": vv}} },
+				func() *core.Finding { return c15APIcase(vv) })
+		}
+		c15KindsAll(x, refEncode(v), "stream-kinds.groups")
+	}
+	// the streaming decoder behind buffering readers: every byte string of length <= 3
+	for b0 := 0; b0 < 256; b0++ {
+		if !x.Mine() {
+			continue
+		}
+		c15KindsAll(x, []byte{byte(b0)}, "stream-kinds.strings")
+		for b1 := 0; b1 < 256; b1++ {
+			c15KindsAll(x, []byte{byte(b0), byte(b1)}, "stream-kinds.strings")
+			if !x.Thorough() {
+				continue
+			}
+			for b2 := 0; b2 < 256; b2++ {
+				c15KindsAll(x, []byte{byte(b0), byte(b1), byte(b2)}, "stream-kinds.strings")
+			}
+		}
+	}
+	// identifiers carried by a PUBLISH: quick every value below 2^24 (one-,
+	// two-, three- and the first 14 M four-byte encodings), thorough all 2^28
+	top := uint32(1) << 24
+	if x.Thorough() {
+		top = 1 << 28
+	}
+	const unit = 1 << 16
+	for lo := uint32(0); lo < top; lo += unit {
+		if !x.Mine() {
+			continue
+		}
+		if x.Expired() {
+			return
+		}
+		c15PublishRange(x, lo, lo+unit, "api.publish.subids")
+	}
+	// remaining length: every value 0..20000 (thorough 0..70000 and +-300 around 2^21) as a PUBLISH written and read back
+	rlTop := 20000
+	if x.Thorough() {
+		rlTop = 70000
+	}
+	var rls []int
+	for t := 4; t <= rlTop; t++ {
+		rls = append(rls, t)
+	}
+	if x.Thorough() {
+		for t := 1<<21 - 300; t <= 1<<21+300; t++ {
+			rls = append(rls, t)
+		}
+	}
+	for _, t := range rls {
+		if !x.Mine() {
+			continue
+		}
+		tt := t
+		x.Eval("api.remlen.dense")
+		if f := c15APIladder(t); f != nil {
+			x.Report(f, func() core.Case { return core.Case{Harness: "c15.api.remlen", Params: map[string]any{"value": tt}} },
+				func() *core.Finding { return c15APIladder(tt) })
+		}
+	}
 }
 
 func c15APIcase(v uint32) *core.Finding {
@@ -372,7 +448,184 @@ func c15APIladder(target int) *core.Finding {
 	if len(b) < 1+len(want) || !bytes.Equal(b[1:1+len(want)], want) || int(n) != 1+len(want)+target {
 		return &core.Finding{Class: "api-remlen", Detail: fmt.Sprintf("PUBLISH with remaining length %d: header % x, want remaining length % x, n=%d", target, b[:min(len(b), 6)], want, n)}
 	}
+	// read back: the streaming decoder must take exactly these bytes and the body
+	rd := &env.Reader{Data: append(append([]byte{}, b...), 0xc0)}
+	back, rerr, res := readPacket(rd, stepBudget(len(b)))
+	if res.Panic != "" || res.Budget || rerr != nil || back == nil || rd.Off != len(b) {
+		return &core.Finding{Class: "api-remlen-read", Detail: fmt.Sprintf("PUBLISH with remaining length %d: ReadPacket: err %v %s, drew %d of %d bytes", target, rerr, res.Panic, rd.Off, len(b))}
+	}
+	if pb, ok := back.(*mq.Publish); !ok || len(pb.Payload()) != target-4 {
+		return &core.Finding{Class: "api-remlen-read", Detail: fmt.Sprintf("PUBLISH with remaining length %d read back with a payload of other size", target)}
+	}
 	return nil
+}
+
+// c15Kinds: the streaming decoder fed through buffering readers whose
+// buffer ends inside the integer: b followed by tail, the source handing
+// over k bytes per Read. Value, byte count and logical stream position
+// must be what the reference says for b.
+func c15Kinds(b []byte, tail []byte, kind env.Kind, k int) *core.Finding {
+	wv, wn, wok := refDecode(b)
+	data := append(append([]byte{}, b...), tail...)
+	if wok {
+		data = append(append([]byte{}, b[:wn]...), tail...)
+	}
+	src := &env.Reader{Data: data, Pat: &env.Pattern{Chunk: k}}
+	r := env.Wrap(kind, src)
+	var gv uint
+	var n int64
+	var err error
+	res := guarded(0, func() { gv, n, err = mq.VerifVbintReadFrom(r) })
+	mk := func(class, what string) *core.Finding {
+		return &core.Finding{Class: "stream-kinds/" + class + "/" + kind.String(), Detail: fmt.Sprintf("streaming decode of % x through %s with %d bytes per Read: %s", data, kind, k, what)}
+	}
+	if res.Panic != "" {
+		return mk("panic", res.Panic)
+	}
+	if !wok {
+		// only demanded when the data as a whole is what the reference
+		// rejects (no tail was appended in that case)
+		if err == nil && len(tail) == 0 {
+			return mk("accepted", fmt.Sprintf("accepted with value %d; the reference rejects it", gv))
+		}
+		return nil
+	}
+	if !bytes.Equal(refEncode(wv), b[:wn]) {
+		return nil // non-minimal: acceptance is not demanded
+	}
+	if err != nil || gv != uint(wv) || int(n) != wn {
+		return mk("value", fmt.Sprintf("got value %d n %d err %v, want value %d n %d", gv, n, err, wv, wn))
+	}
+	used := src.Off
+	switch v := r.(type) {
+	case *bufio.Reader:
+		used -= v.Buffered()
+	case *env.Rich:
+		used -= v.Buffered()
+	}
+	if used != wn {
+		return mk("position", fmt.Sprintf("the logical stream is at offset %d afterwards, the integer has %d bytes", used, wn))
+	}
+	return nil
+}
+
+var c15StreamKinds = []env.Kind{env.KBufio16, env.KBufio4096, env.KBufioPrefetched, env.KRich, env.KLimited}
+
+func c15KindsAll(x *core.Ctx, b []byte, stratum string) {
+	for _, kind := range c15StreamKinds {
+		for _, tail := range c15Tails {
+			for k := 1; k <= 4; k++ {
+				x.Eval(stratum)
+				if f := c15Kinds(b, tail, kind, k); f != nil {
+					bb, tt, kind, k := append([]byte{}, b...), tail, kind, k
+					x.Report(f, func() core.Case {
+						return core.Case{Harness: "c15.kinds", Frame: hexOf(bb), Params: map[string]any{"tail": hexOf(tt), "kind": int(kind), "k": k}}
+					}, func() *core.Finding { return c15Kinds(bb, tt, kind, k) })
+				}
+			}
+		}
+	}
+}
+
+// c15Publish: identifiers carried by a PUBLISH (a list): written through the
+// API, read by the specification decoder (value, minimal form) and read back
+// by ReadPacket.
+func c15Publish(ids []uint32) *core.Finding {
+	resetGlobals()
+	p := mq.NewPublish()
+	p.SetTopicName("t")
+	for _, v := range ids {
+		p.AddSubscriptionID(v)
+	}
+	b, _, err, res := writePacket(p, 0)
+	if res.Panic != "" || err != nil {
+		return &core.Finding{Class: "api-publish-write", Detail: fmt.Sprintf("PUBLISH with %d subscription identifiers from %d: write failed: %v %s", len(ids), ids[0], err, res.Panic)}
+	}
+	sp, _, n, derr := spec.Decode(b, false)
+	if derr != nil || n != len(b) {
+		return &core.Finding{Class: "api-publish-frame", Detail: fmt.Sprintf("PUBLISH with %d subscription identifiers from %d: frame unreadable by the specification decoder: %v", len(ids), ids[0], derr)}
+	}
+	i := 0
+	for _, pr := range sp.Props {
+		if pr.ID != 0x0b {
+			continue
+		}
+		if i >= len(ids) || pr.N != ids[i] {
+			return &core.Finding{Class: "api-publish-subid-wire", Detail: fmt.Sprintf("subscription identifier #%d (%d) on the wire reads %d", i, ids[min(i, len(ids)-1)], pr.N)}
+		}
+		i++
+	}
+	if i != len(ids) {
+		return &core.Finding{Class: "api-publish-subid-wire", Detail: fmt.Sprintf("%d identifiers set, %d on the wire", len(ids), i)}
+	}
+	// minimal form: the property section is exactly the concatenation of 0b + minimal encodings
+	var want []byte
+	for _, v := range ids {
+		want = append(append(want, 0x0b), refEncode(v)...)
+	}
+	if !bytes.Contains(b, want) {
+		return &core.Finding{Class: "api-publish-subid-minimal", Detail: fmt.Sprintf("identifiers from %d are not all written in minimal form", ids[0])}
+	}
+	q, rerr, res := readPacket(bytes.NewReader(b), stepBudget(len(b)))
+	if res.Panic != "" || res.Budget || rerr != nil {
+		return &core.Finding{Class: "api-publish-read", Detail: fmt.Sprintf("identifiers from %d: ReadPacket failed: %v %s", ids[0], rerr, res.Panic)}
+	}
+	pq, ok := q.(*mq.Publish)
+	if !ok {
+		return &core.Finding{Class: "api-publish-read", Detail: "not a PUBLISH"}
+	}
+	got := pq.SubscriptionIDs()
+	if len(got) != len(ids) {
+		return &core.Finding{Class: "api-publish-subid-roundtrip", Detail: fmt.Sprintf("%d identifiers written, %d read back", len(ids), len(got))}
+	}
+	for j := range ids {
+		if uint32(got[j]) != ids[j] {
+			return &core.Finding{Class: "api-publish-subid-roundtrip", Detail: fmt.Sprintf("subscription identifier %d read back as %d", ids[j], got[j])}
+		}
+	}
+	return nil
+}
+
+// c15PublishRange runs c15Publish over [lo,hi) in frames of 128 identifiers;
+// a failing frame is narrowed to single identifiers.
+func c15PublishRange(x *core.Ctx, lo, hi uint32, stratum string) {
+	const per = 128
+	ids := make([]uint32, 0, per)
+	for v := lo; v < hi; v += per {
+		ids = ids[:0]
+		for w := v; w < v+per && w < hi; w++ {
+			if w != 0 {
+				ids = append(ids, w)
+			}
+		}
+		if len(ids) == 0 {
+			continue
+		}
+		x.EvalN(stratum, int64(len(ids)))
+		x.R.Distinct += int64(len(ids))
+		if c15Publish(ids) == nil {
+			continue
+		}
+		for _, w := range ids {
+			if f := c15Publish([]uint32{w}); f != nil {
+				w := w
+				x.Report(f, func() core.Case { return core.Case{Harness: "c15.api.publish", Params: map[string]any{"value": w}} },
+					func() *core.Finding { return c15Publish([]uint32{w}) })
+			}
+		}
+		if f := c15Publish(ids); f != nil {
+			first, cnt := ids[0], len(ids)
+			x.Report(f, func() core.Case {
+				return core.Case{Harness: "c15.api.publish", Params: map[string]any{"value": first, "count": cnt}}
+			}, func() *core.Finding {
+				var l []uint32
+				for i := 0; i < cnt; i++ {
+					l = append(l, first+uint32(i))
+				}
+				return c15Publish(l)
+			})
+		}
+	}
 }
 
 func c15API(x *core.Ctx) {
@@ -406,6 +659,18 @@ func replayC15(c core.Case) *core.Finding {
 		return c15APIcase(uint32(paramInt(c.Params, "value")))
 	case "c15.api.remlen":
 		return c15APIladder(paramInt(c.Params, "value"))
+	case "c15.api.publish":
+		first, cnt := uint32(paramInt(c.Params, "value")), paramInt(c.Params, "count")
+		if cnt == 0 {
+			cnt = 1
+		}
+		var l []uint32
+		for i := 0; i < cnt; i++ {
+			l = append(l, first+uint32(i))
+		}
+		return c15Publish(l)
+	case "c15.kinds":
+		return c15Kinds(unhex(c.Frame), unhex(paramStr(c.Params, "tail")), env.Kind(paramInt(c.Params, "kind")), paramInt(c.Params, "k"))
 	}
 	return nil
 }
